@@ -106,12 +106,34 @@ def save_folders(ctx):
         for c in ([st.test] if isinstance(st, ast.If) else []):
             for call in [x for x in ast.walk(c) if isinstance(x, ast.Call)]:
                 if call_name(call) == 'save_indexed_counters' and len(call.args) >= 3:
-                    a = call.args[1]
-                    enc = U(call.args[2])
-                    if isinstance(a, ast.Name) and a.id in groups:
-                        out[folder] = {'named': dict(groups[a.id]), 'encoding': enc}
+                    # arguments by role, whatever the signature: the folder is the argument that is (or joins) a string constant
+                    # folder name, the counters are the pcfg_parser attribute / the grouping dict, the encoding is the rest
+                    args = list(call.args) + [k.value for k in call.keywords]
+                    fold = None
+                    cnt = None
+                    encs = [U(args[-1])]          # the encoding is the last argument in every signature seen
+                    for a in args[:-1]:
+                        if isinstance(const(a), str):
+                            fold = const(a)
+                        elif isinstance(a, ast.Call) and call_name(a) == 'os.path.join' and a.args and isinstance(const(a.args[-1]), str):
+                            fold = const(a.args[-1])
+                        elif isinstance(a, ast.Name) and a.id in groups:
+                            cnt = a
+                        elif isinstance(a, ast.Attribute) and U(a).startswith(pp + '.count_'):
+                            cnt = a
+                        elif isinstance(a, ast.Name) and a.id == params(fn)[0]:
+                            pass                      # base directory
+                        elif isinstance(a, ast.Name) and fold is None and a.id not in groups and len(call.args) == 3 and a is call.args[0]:
+                            fold = folder             # the variable assigned from os.path.join(base, "<Folder>") just before
+                        else:
+                            encs.append(U(a))
+                    if fold is None or cnt is None:
+                        continue
+                    enc = encs[-1] if encs else '?'
+                    if isinstance(cnt, ast.Name):
+                        out[fold] = {'named': dict(groups[cnt.id]), 'encoding': enc}
                     else:
-                        out[folder] = {'indexed': U(a), 'encoding': enc}
+                        out[fold] = {'indexed': U(cnt), 'encoding': enc}
     return out, pp
 
 
